@@ -467,7 +467,35 @@ fn upgrade_open_crashes(seed: u64, thorough: bool, shard: Shard, cov: &mut Cov, 
             }
             shadow.apply(ev);
         }
-        if let Some(why) = shadow.unexplained(work.path()) {
+        if let Some((from, to, durable)) = shadow.renamed_into_place(work.path()) {
+            // a file written through the VFS was renamed over another one outside the VFS. Power loss
+            // right after the rename: the new name is durable, of the content only what had been synced
+            let mut im = shadow.process_image();
+            let key_to = im.files.keys().find(|k| k.ends_with(&to)).cloned().unwrap_or_else(|| work.path().join(&to).to_string_lossy().to_string());
+            if let Some(k) = im.files.keys().find(|k| k.ends_with(&from)).cloned() {
+                im.files.remove(&k);
+            }
+            im.files.insert(key_to, durable.clone().unwrap_or_default());
+            cov.hit("upgrade-open:file-renamed-into-place-outside-the-vfs".into());
+            let bad = match recover(&im, &clients, &ids) {
+                Err(e) => Some(e),
+                Ok(r) => {
+                    if proto_only(&r.rows) != s0 {
+                        Some("no longer holds what the pinned release had stored".to_string())
+                    } else {
+                        None
+                    }
+                }
+            };
+            if let Some(m) = bad {
+                return Some(Found {
+                    property: "C04".into(),
+                    signature: "C04:upgrade-open rename".into(),
+                    msg: format!("a data directory written by the pinned release ({} clients) is opened by the current code, which writes {from} and renames it over {to} (outside SQLite); of {from} {} bytes had been synced at that moment. Power loss right after the rename (the name is durable, unsynced content is not): the image {m}", clients.len(), durable.map(|d| d.len()).unwrap_or(0)),
+                    replay: json!({"origin": "upgrade-open-rename", "case": i}),
+                });
+            }
+        } else if let Some(why) = shadow.unexplained(work.path()) {
             errors.push(format!("first start-up of the current code on a directory written by the pinned release: the data directory is not what the recorded file I/O produces ({why}); the storage did file I/O that bypasses SQLite's VFS (direct writes or renames), which the crash model cannot follow"));
         }
         let _ = std::fs::remove_dir_all(work.path());
